@@ -40,6 +40,8 @@ type Options struct {
 	Verbose     bool
 	KnownRegions map[string][]string // assert site -> region names listed as known findings
 	StopOnFirst bool
+	Tier        string
+	Canary      bool
 	AllocBound  int // largest symbolic make() size explored
 	FloatEnum   int // max distinct float values enumerated by FormatFloat etc.
 	ByteEnum    int // max distinct values when a symbolic byte/int must be concrete
@@ -87,6 +89,7 @@ type PathResult struct {
 	Forbidden []string
 	Incon     []string // inconclusive asserts (solver unknown)
 	Reached   []string
+	Params    map[string]int
 }
 
 // Path is the state of the path being executed.
@@ -120,6 +123,7 @@ type Path struct {
 	stdoutV    []value
 	stdoutMark int
 	itoaN      int
+	params     map[string]int
 	pending   [][]int64
 	res       *PathResult
 }
